@@ -213,8 +213,9 @@ class Sh:
 
 
 # ---------------------------------------------------------------- the real class
-def apply_real(cg, lib, c, op):
-    """apply one op to a circuitgraph.Circuit; returns (return value, recorded set orders)"""
+def apply_real(cg, lib, c, op, pool=None):
+    """apply one op to a circuitgraph.Circuit; returns (return value, recorded set orders).
+    pool: BlackBox objects of this history by content -- one definition object is shared by all its instances, as in netlists"""
     k = op[0]
     if k == "add":
         return c.add(op[1], op[2], fanin=op[3], fanout=op[4], output=op[5], uid=op[6]), None
@@ -229,7 +230,12 @@ def apply_real(cg, lib, c, op):
     if k == "set_output":
         return c.set_output(op[1], op[2]), None
     if k == "add_blackbox":
-        bb = cg.BlackBox(op[1], op[2], op[3])
+        key = (op[1], tuple(op[2]), tuple(op[3]))
+        bb = None if pool is None else pool.get(key)
+        if bb is None:
+            bb = cg.BlackBox(op[1], op[2], op[3])
+            if pool is not None:
+                pool[key] = bb
         orders = [list(bb.inputs()), list(bb.outputs())]     # iteration order of the two sets = order of pin creation
         conns = None if op[5] is None else {kk: v for kk, v in op[5]}
         try:
@@ -254,10 +260,11 @@ def run_history(cg, lib, start, ops):
     first = lib.dump_circuit(c)
     prev = first
     steps = []
+    pool = {}
     for op in ops:
         orders = None
         try:
-            ret, orders = apply_real(cg, lib, c, op)
+            ret, orders = apply_real(cg, lib, c, op, pool)
             oc = "ok"
         except Exception as e:
             ret, oc = None, type(e).__name__
